@@ -269,13 +269,17 @@ type c19Tree struct {
 	CommonAnn    map[string]string `json:"commonAnnotations"`
 }
 
-func c19GenTree(g *Rng) *c19Tree {
+func c19GenTree(g *Rng, allowOverlap bool) *c19Tree {
 	t := &c19Tree{Files: map[string]string{}}
 	replicas := 1 + g.Intn(3)
 	t.Files["base/deployment.yaml"] = fmt.Sprintf(`apiVersion: apps/v1
 kind: Deployment
 metadata:
   name: web
+  labels:
+    dl: x
+  annotations:
+    da: y
 spec:
   replicas: %d
   selector:
@@ -308,6 +312,15 @@ spec:
 	}
 	if g.Chance(30) {
 		baseK += "commonLabels:\n  layer: base\n"
+	}
+	baseGens := g.Chance(55)
+	if baseGens {
+		// generator outputs of the base still await their hash suffix while the app layer is processed
+		baseK += "configMapGenerator:\n- name: settings\n  literals:\n  - mode=prod\n  options:\n    labels:\n      gl: a\n    annotations:\n      ga: b\n" +
+			"secretGenerator:\n- name: creds\n  literals:\n  - p=q\n  options:\n    labels:\n      gl: a\n    annotations:\n      ga: b\n"
+		if g.Chance(40) {
+			baseK += "nameSuffix: -prod\n"
+		}
 	}
 	t.Files["base/kustomization.yaml"] = baseK
 	t.Files["app/cm.yaml"] = "apiVersion: v1\nkind: ConfigMap\nmetadata:\n  name: plain\ndata:\n  k: v\n"
@@ -374,13 +387,56 @@ spec:
 		t.Files["app/p3.yaml"] = "apiVersion: apps/v1\nkind: Deployment\nmetadata:\n  name: web\n  annotations:\n    note: patched\n"
 		t.Patches = []types.Patch{{Path: "p3.yaml", Target: &types.Selector{ResId: resid.ResId{Gvk: resid.Gvk{Kind: "Deployment"}}}}}
 	}
+	metaJSON := false
+	if allowOverlap && g.Chance(30) {
+		// the SAME key in a labels entry and in commonLabels, different values: the hand rewrite puts the
+		// former commonLabels LAST (labels ++ [{pairs, includeSelectors: true}]), which is also the order in
+		// which the label transformer instances run (`edit fix` refuses such a file, the build does not)
+		t.CommonLabels = map[string]string{"team": "from-common"}
+		t.Labels = []types.Label{{Pairs: map[string]string{"team": "from-labels"}, IncludeTemplates: g.Bool(), IncludeSelectors: g.Chance(30)}}
+		if g.Chance(40) {
+			t.Labels = append(t.Labels, types.Label{Pairs: map[string]string{"tier": "t1", "team": "second"}})
+		}
+	} else if baseGens && g.Chance(60) {
+		metaJSON = true
+		// JSON6902 patches on whole metadata objects of generated and ordinary resources; nothing else of
+		// this layer writes labels/annotations, so the patches stay disjoint from the other directives
+		t.CommonLabels, t.Labels, t.CommonAnn, t.Patches = nil, nil, nil, nil
+		delete(t.Files, "app/p3.yaml")
+		ops := []string{
+			"- op: add\n  path: /metadata/annotations\n  value:\n    note: x\n",
+			"- op: replace\n  path: /metadata/annotations\n  value:\n    note: y\n",
+			"- op: remove\n  path: /metadata/annotations\n",
+			"- op: replace\n  path: /metadata/labels\n  value:\n    nl: z\n",
+			"- op: add\n  path: /metadata/labels\n  value:\n    nl: z\n",
+			"- op: remove\n  path: /metadata/labels\n",
+			"- op: add\n  path: /metadata/annotations/extra\n  value: e\n",
+		}
+		targets := []types.Selector{
+			{ResId: resid.ResId{Name: "settings", Gvk: resid.Gvk{Version: "v1", Kind: "ConfigMap"}}},
+			{ResId: resid.ResId{Name: "creds", Gvk: resid.Gvk{Version: "v1", Kind: "Secret"}}},
+			{ResId: resid.ResId{Name: "web", Gvk: resid.Gvk{Group: "apps", Version: "v1", Kind: "Deployment"}}},
+		}
+		n := 1 + g.Intn(2)
+		perm := []int{0, 1, 2}
+		for i := 2; i > 0; i-- {
+			j := g.Intn(i + 1)
+			perm[i], perm[j] = perm[j], perm[i]
+		}
+		for i := 0; i < n; i++ {
+			fn := fmt.Sprintf("meta%d.yaml", i)
+			t.Files["app/"+fn] = g.Pick(ops)
+			tg := targets[perm[i]]
+			t.JsonPatches = append(t.JsonPatches, types.Patch{Path: fn, Target: &tg})
+		}
+	}
 	if g.Chance(40) {
 		t.NamePrefix = "app-"
 	}
 	if g.Chance(40) {
 		t.Namespace = "prod"
 	}
-	if g.Chance(30) {
+	if g.Chance(30) && !metaJSON {
 		t.CommonAnn = map[string]string{"owner": "me"}
 	}
 	return t
@@ -694,11 +750,11 @@ func runC19(r *Run, rng *Rng, tier string) error {
 	}
 	for i := 0; i < nTree; i++ {
 		g := rng.Fork()
-		t := c19GenTree(g)
+		t := c19GenTree(g, true)
 		c19SpellingLaws(r, t, c19Subsets(g, i%exhaustiveEvery == 0))
 	}
 	for i := 0; i < nFixTree; i++ {
-		c19FixBuildLaw(r, c19GenTree(rng.Fork()))
+		c19FixBuildLaw(r, c19GenTree(rng.Fork(), false))
 	}
 	return nil
 }
